@@ -1,5 +1,7 @@
 // ---- env/std_extra.rs: specs of small std functions that vstd does not cover (assumed, each is
 // the documented behaviour of the std function) ------------------------------------------------
+// std: drop(x) only ends the life of x (an explicit drop of a lock guard is modelled by E7: ghost_unlock right after it)
+pub assume_specification<T>[::core::mem::drop](x: T);
 pub assume_specification<T>[::std::option::Option::<T>::or](a: Option<T>, b: Option<T>) -> (r: Option<T>)
     ensures r == (match a { Some(x) => Some(x), None => b });
 pub assume_specification<T, P: FnOnce(&T) -> bool>[::std::option::Option::<T>::filter](o: Option<T>, p: P) -> (r: Option<T>)
